@@ -252,6 +252,8 @@ mutual
   def EVal.keysOk : EVal → Bool
     | .cell _ => true
     | .date _ => true
+    | .tdelta _ => true
+    | .nat => true
     | .list xs => EVal.keysOkList xs
     | .tuple xs => EVal.keysOkList xs
     | .dict _ kvs => decide (kvs.map (·.1)).Nodup && EVal.keysOkKVs kvs
